@@ -71,4 +71,42 @@ impl<'a> ZipCursor<'a> {
         ensures *r.0 == old(self).xs()[old(self).pos()], *r.1 == old(self).ys()[old(self).pos()], final(self).pos() == old(self).pos() + 1, final(self).xs() == old(self).xs(), final(self).ys() == old(self).ys() { unimplemented!() }
 }
 
+// ---- additions for constrain / constrain_join / constrain_instantiation_of_blocklisted_template ----
+impl HashSet<ItemId> {
+    pub uninterp spec fn s_contains(&self, k: ItemId) -> bool;
+    #[verifier::external_body] pub fn contains(&self, k: &ItemId) -> (r: bool) ensures r == self.s_contains(*k) { unimplemented!() }
+}
+// `self.used.get_mut(&id).expect(..).take().expect(..)`: moves id's set out of the table, leaving None
+#[verifier::external_body]
+pub fn take_entry(m: &mut HashMap<ItemId, Option<ItemSet>>, id: ItemId) -> (r: ItemSet)
+    requires s_used(old(m), id).is_some(),      // the two `.expect(..)`s of the real code
+    ensures r.view() == s_used(old(m), id).unwrap(), s_used(final(m), id).is_none(),
+            forall|j: ItemId| j != id ==> s_used(final(m), j) == s_used(old(m), j) { unimplemented!() }
+// `self.used.insert(id, Some(set));`
+#[verifier::external_body]
+pub fn put_entry(m: &mut HashMap<ItemId, Option<ItemSet>>, id: ItemId, v: ItemSet)
+    ensures s_used(final(m), id) == Some(v.view()),
+            forall|j: ItemId| j != id ==> s_used(final(m), j) == s_used(old(m), j) { unimplemented!() }
+// `assert!(c, "..")`: not panicking is a proof obligation
+pub fn assert_or_panic(c: bool) requires c { }
+
+// the two kinds the analysis singles out; every other TypeKind is `Other`
+pub enum TypeKind { TypeParam, TemplateInstantiation(TemplateInstantiation), Other }
+#[verifier::external_body] pub struct Item { _p: core::marker::PhantomData<()> }
+impl Item {
+    pub uninterp spec fn s_id(&self) -> ItemId;
+    // item.as_type().map(|ty| ty.kind()): None for items that are not types
+    pub uninterp spec fn s_type_kind(&self) -> Option<TypeKind>;
+    // the (successor, edge kind) pairs `item.trace(ctx, cb, &())` hands to its callback, in order
+    pub uninterp spec fn s_edges(&self, ctx: &BindgenContext) -> Seq<(ItemId, EdgeKind)>;
+    #[verifier::external_body] pub fn id(&self) -> (r: ItemId) ensures r == self.s_id() { unimplemented!() }
+    #[verifier::external_body] pub fn type_kind(&self) -> (r: Option<&TypeKind>)
+        ensures r.is_some() == self.s_type_kind().is_some(), r.is_some() ==> *r.unwrap() == self.s_type_kind().unwrap() { unimplemented!() }
+    #[verifier::external_body] pub fn traced_edges(&self, ctx: &BindgenContext) -> (r: Vec<(ItemId, EdgeKind)>) ensures r@ == self.s_edges(ctx) { unimplemented!() }
+}
+impl BindgenContext {
+    pub uninterp spec fn s_item(&self, id: ItemId) -> Item;
+    #[verifier::external_body] pub fn resolve_item(&self, id: ItemId) -> (r: &Item) ensures *r == self.s_item(id), r.s_id() == id { unimplemented!() }
+}
+
 } // verus!
